@@ -58,6 +58,9 @@ class Contract:
     self_cls = None      # qualified class name when the function is a method
     always_raises = False
     allow_any_exception = False    # exceptions not listed in raises() are allowed (state-after-exception clauses still apply)
+    no_own_raises = False          # with allow_any_exception: a `raise` statement in the body itself is still forbidden
+    TRANSPARENT_DECORATORS = ("staticmethod", "classmethod", "property", "_", "abstractmethod", "override", "typing.override", "final", "typing.final")
+    STATEFUL_DECORATORS = ("lru_cache", "cache", "cached_property", "functools.lru_cache", "functools.cache", "functools.cached_property", "memoize", "memoized", "cached")
     callee_view = False
 
     def __init__(self, reg, tier="quick"):
@@ -160,6 +163,27 @@ class Contract:
             vals[fn.args.kwarg.arg] = KwSplat(z3.Const("nokwargs", Val))
         return Args(vals)
 
+    def decorator_obligations(self, fn, mod, base):
+        """the contract describes the BODY; a decorator replaces what callers get by something else.  Known-transparent ones are
+        ignored, memoising ones (library or first-party) make the function keep state between calls (refuted), any other is
+        undecided"""
+        from vcore.obl import REFUTED, DISCHARGED
+        out = []
+        for d in fn.decorator_list:
+            f = d.func if isinstance(d, ast.Call) else d
+            name = ast.unparse(f)
+            if name in self.TRANSPARENT_DECORATORS or name.split(".")[-1] in ("setter", "getter"):
+                continue
+            q = mod.names.get(name.split(".")[0], name.split(".")[0]) + name[len(name.split(".")[0]):]
+            first_party = q.startswith("pyab_experiment.") and not q.startswith("pyab_experiment.sly.")
+            stateful = name in self.STATEFUL_DECORATORS or q in self.STATEFUL_DECORATORS or name.split(".")[-1] in self.STATEFUL_DECORATORS or first_party
+            out.append(Obl("%s/undecorated(%s)" % (base, name), self.target, "frame",
+                           "callers get the function whose body is under contract, not a wrapper (decorator %s)" % name,
+                           status=REFUTED if stateful else UNDECIDED, backend="extract",
+                           detail="decorated with %s (%s): %s" % (name, q, "a wrapper that keeps state between calls" if stateful else "unknown wrapper"),
+                           props=self.props, model={"decorator": q} if stateful else None, replay=self.replay))
+        return out
+
     # --- callee view
     def apply(self, ex, p, pos, kw, node):
         fn = self.fndef()
@@ -204,6 +228,7 @@ class Contract:
                         status=UNDECIDED, backend="extract", detail="function not found", props=self.props)]
         mod = self.module(mutate)
         n_return = 0
+        obls.extend(self.decorator_obligations(fn, mod, base))
         for sh in self.shapes():
             p0 = Path()
             try:
@@ -260,6 +285,10 @@ class Contract:
                     elif not self.allow_any_exception:
                         add("raises.none:" + exc, z3.BoolVal(False), "raises",
                             text="no %s is ever raised (%s)" % (exc, v.info))
+                    elif self.no_own_raises and (v.info or "").startswith("line "):
+                        # exceptions may propagate from callees, but the body itself has no business raising a new one
+                        add("raises.none-of-its-own:" + exc, z3.BoolVal(False), "raises",
+                            text="the function raises no exception of its own (%s at %s)" % (exc, v.info))
                 for name, goal in self.frame(a, p, kind, snapshot):
                     add("frame." + name, goal, "frame")
         if n_return == 0 and not self.always_raises and not any(o.status == UNDECIDED for o in obls):
